@@ -1,25 +1,67 @@
 (* Spec/Trace.v — what tracing a context through a lattice means: an object is mapped to the
    concepts whose intent it satisfies, and to the minimal ones among them (w.r.t. the order
-   [lt] of the lattice) as its bottom concepts.  Independent of the model of the code. *)
-From FCA Require Export Spec.Galois Spec.Covers.
+   [lt] of the lattice) as its bottom concepts.  Independent of the model of the code.
+   [sat i g] = "object g of the traced context satisfies the intent of concept i":
+     formal context      : g has every attribute of the intent
+     many-valued context : every description of the intent covers g's value in that structure
+                           (for interval structures: a conjunction of interval containments). *)
+From FCA Require Export Spec.Galois Spec.Covers Spec.PatternSpec.
 
+Definition traced_gen (sat : nat -> nat -> bool) (n : nat) (g : nat) : list nat :=
+  filter (fun i => sat i g) (seq 0 n).
+
+Definition bottoms_gen (lt : nat -> nat -> bool) (sat : nat -> nat -> bool) (n : nat) (g : nat)
+  : list nat :=
+  filter (fun i => sat i g && negb (existsb (fun j => lt j i && sat j g) (seq 0 n))) (seq 0 n).
+
+(* satisfaction is antitone along the order of the lattice: what satisfies a concept satisfies
+   every concept above it *)
+Definition antitone_sat (lt : nat -> nat -> bool) (sat : nat -> nat -> bool) (n : nat) : Prop :=
+  forall i j, i < n -> j < n -> lt i j = true -> forall g, sat i g = true -> sat j g = true.
+
+(* ---- formal contexts *)
 Definition satisfies (t : table) (g : nat) (B : list nat) : bool := forallb (fun m => I t g m) B.
+Definition sat_formal (intents : list (list nat)) (t : table) (i g : nat) : bool :=
+  satisfies t g (nth i intents []).
 
 Definition traced_spec (intents : list (list nat)) (t : table) (g : nat) : list nat :=
-  filter (fun i => satisfies t g (nth i intents [])) (seq 0 (length intents)).
-
+  traced_gen (sat_formal intents t) (length intents) g.
 Definition bottoms_spec (lt : nat -> nat -> bool) (intents : list (list nat)) (t : table) (g : nat)
-  : list nat :=
-  let n := length intents in
-  filter (fun i => satisfies t g (nth i intents []) &&
-                   negb (existsb (fun j => lt j i && satisfies t g (nth j intents [])) (seq 0 n)))
-         (seq 0 n).
+  : list nat := bottoms_gen lt (sat_formal intents t) (length intents) g.
 
-(* the hypothesis "intents are antitone along the order of the lattice" *)
+(* "intents are antitone along the order of the lattice" *)
 Definition antitone_intents (lt : nat -> nat -> bool) (intents : list (list nat)) : Prop :=
   forall i j, i < length intents -> j < length intents -> lt i j = true ->
               incl (nth j intents []) (nth i intents []).
 Definition antitone_intentsb (lt : nat -> nat -> bool) (intents : list (list nat)) : bool :=
   let n := length intents in
   forallb (fun i => forallb (fun j => negb (lt i j) || subsetb (nth j intents []) (nth i intents []))
+                            (seq 0 n)) (seq 0 n).
+
+(* ---- many-valued contexts: an intent is a dictionary {structure index: description} *)
+Definition mv_intent := list (nat * desc).
+Definition sat_desc (cols : list column) (ds : mv_intent) (g : nat) : bool :=
+  forallb (fun id => covers (snd id) (value_at (nth (fst id) cols (CAttr [])) g)) ds.
+Definition sat_mv (intents : list mv_intent) (cols : list column) (i g : nat) : bool :=
+  sat_desc cols (nth i intents []) g.
+
+(* d1 is at least as specific as d2 (whatever d1 covers, d2 covers) *)
+Definition desc_leb (d1 d2 : desc) : bool :=
+  match d1, d2 with
+  | DIv None, DIv _ => true
+  | DIv (Some (a, b)), DIv (Some (a', b')) => ((a' <=? a)%Z && (b <=? b')%Z)%bool
+  | DSet None, DSet _ => true
+  | DSet (Some s), DSet (Some s') => subsetb s s'
+  | DAttr d, DAttr d' => implb d' d
+  | _, _ => false
+  end.
+(* same structures in the same order, each description at least as specific *)
+Definition intent_leb (ds1 ds2 : mv_intent) : bool :=
+  forallb2 (fun a b => Nat.eqb (fst a) (fst b) && desc_leb (snd a) (snd b)) ds1 ds2.
+Definition antitone_mv (lt : nat -> nat -> bool) (intents : list mv_intent) : Prop :=
+  forall i j, i < length intents -> j < length intents -> lt i j = true ->
+              intent_leb (nth i intents []) (nth j intents []) = true.
+Definition antitone_mvb (lt : nat -> nat -> bool) (intents : list mv_intent) : bool :=
+  let n := length intents in
+  forallb (fun i => forallb (fun j => negb (lt i j) || intent_leb (nth i intents []) (nth j intents []))
                             (seq 0 n)) (seq 0 n).
